@@ -388,6 +388,19 @@ def stream_first_requests(rng, tier):
                 for a in argsets:
                     out.append(case('fr%d' % n, ctor, ['%s %s' % (b, setter_tok(name, a))]))
                     n += 1
+    # first requests made of SEVERAL setters of one builder (an encoder that disturbs a neighbouring
+    # field, a setter that forgets what an earlier setter of the same chain put into the copy)
+    for b in BUILDERS:
+        for i in range(QS * 12 if tier == 'quick' else 400):
+            out.append(case('fr%d' % n, rng.choice(['i2c', 'i2c', 'spi', 'spi3']),
+                            [' '.join([b] + [rand_setter(rng, b) for _ in range(rng.randint(2, 4))])]))
+            n += 1
+    # the pin electrical configuration: every ordered pair of (INT1, INT2) settings, both orders
+    for c1 in range(4):
+        for c2 in range(4):
+            out.append(case('fr%d' % n, 'i2c', ['pin int1:%d int2:%d' % (c1, c2)]))
+            out.append(case('fr%d' % (n + 1), 'i2c', ['pin int2:%d int1:%d' % (c2, c1)]))
+            n += 2
     return out
 
 
